@@ -68,7 +68,7 @@ fn load_impl(zones: Vec<ZoneConfig>, loaded: Option<&Catalog>) -> Catalog {
 
     for zone_config in zones {
         // Determine whether the zone should be (re)loaded.
-        let loaded_zone = loaded.and_then(|c| c.lookup(&zone_config.name.0, zone_config.class.0));
+        let loaded_zone = loaded.and_then(|c| c.get(&zone_config.name.0, zone_config.class.0));
         let (mtime, zone_config) = match check_mtime(zone_config, loaded_zone) {
             MtimeCheckResult::Load { mtime, zone_config } => (mtime, zone_config),
             MtimeCheckResult::Skip { entry } => {
